@@ -605,7 +605,11 @@ TwinContract(e) ==
     LET n == Len(e.pa)
         diff == {i \in 1..n : ~ResultEq(e.pa[i], e.pb[i])}
         norep == {i \in 1..n : e.rep[i] = 0}
+        \* a call of the catalogue that fails in a fresh environment fails whenever it is made: an earlier failing
+        \* call (e.g. the very same one) must not make it succeed
+        succeeded == IF "isfail" \in DOMAIN e THEN {i \in 1..Len(e.h) : e.isfail[i] = 1 /\ e.outcomes[i] # "err"} ELSE {}
     IN  Verdict(Fl("result_independent_of_history", diff = {}) \o
+                Fl("failing_call_fails_whatever_was_called_before", succeeded = {}) \o
                 Fl("repeated_call_returns_same_object", norep = {}), <<>>,
                 IF diff # {} THEN CHOOSE i \in diff : \A k \in diff : i <= k
                 ELSE IF norep # {} THEN CHOOSE i \in norep : TRUE ELSE -1)
